@@ -746,3 +746,179 @@ Example ex_pline_parses :
   = (true, true).
 Proof. vm_compute. reflexivity. Qed.
 End WideExample.
+
+(** * Part 5: [args_conflicts_with_subcommands]
+
+    The parser keeps, per level, the flag [valid_arg_found] ("an argument of this level was seen"); on a level that
+    sets [args_conflicts_with_subcommands] a word is looked up as a subcommand only while the flag is off.  The
+    engine has no such flag and never reads the setting: it descends on every subcommand name it meets between
+    arguments.  Where the two agree, exactly: *)
+
+Lemma negate_no_sub c tok : is_set s_args_negate_subs c = true -> possible_subcommand c tok true = None.
+Proof. intros H. rewrite possible_subcommand_unfold, H. destruct (negb (utf8_valid tok)); reflexivity. Qed.
+
+(** the loop on a plain word that is no subcommand where NO positional is left: the level's unknown-token error *)
+Lemma loop_pos_none c pst tok rest pos vaf st :
+  match pst with PSOpt _ => False | _ => True end ->
+  (if is_set s_sub_precedence c || match pst with PSValuesDone => true | _ => false end
+   then possible_subcommand c tok vaf else None) = None ->
+  plain_tok tok -> pos_plain c -> get_pos c pos = None -> is_set s_allow_external c = false ->
+  parse_loop c (tok :: rest) (mkL pst pos vaf false) st =
+  (do st1 <- resolve_pending_ignore c st; RErr (match_arg_error c tok vaf false) st1).
+Proof.
+  intros Hpst Hns [He [Hl Hs]] [Hmiss Hlow] Hg Hext.
+  cbn [parse_loop l_trailing l_pst l_vaf l_pos].
+  rewrite Hns, He, Hl, Hs. cbn [rbind l_trailing l_pst l_vaf l_pos].
+  destruct pst as [|i|i]; [|contradiction|];
+    cbv zeta; rewrite Hlow, Hmiss; rewrite !andb_false_r; cbn [andb orb rbind]; rewrite Hg, Hext; reflexivity.
+Qed.
+
+Lemma conflict_kind c tok : has_subcommands c = true -> is_set s_args_negate_subs c = true ->
+  e_kind (match_arg_error c tok true false) = EArgumentConflict.
+Proof. intros Hs Hn. unfold match_arg_error. cbn [andb]. rewrite Hs, Hn. reflexivity. Qed.
+
+(** THE CHARACTERISATION.  Level [pc] sets [args_conflicts_with_subcommands]; [pre] are arguments of the level
+    (options, single-valued positionals); [tok] names the subcommand [sc0].
+    (1) the ENGINE descends to the child, whatever [pre] is;
+    (2) [pre = []]: the PARSER dispatches to the same child - the levels agree;
+    (3) [pre <> []]: the parser does not look [tok] up as a subcommand; with a positional [a] left at the counter it
+        takes [tok] as the value of [a] and STAYS at [pc] (the engine is one level deeper from here on); with none
+        left it rejects the line: ArgumentConflict. *)
+Theorem args_conflict_levels pc cur pre F pos tok sc0 :
+  lvlw pc -> lvl_rel pc cur -> is_set s_args_negate_subs pc = true ->
+  pitems pc 1 pre F pos -> utf8_valid tok = true -> find_subcommand pc tok = Some sc0 -> aliases_to sc0 s_help = false ->
+  (exists es pc', shadow_run (pre ++ [tok]) cur 1 false ValueDone = SNext es 1 false ValueDone /\
+                  build_subcommand pc (c_name sc0) = Some pc' /\ lvl_rel pc' es) /\
+  (pre = [] -> forall rest st, exists n', find_subcommand pc n' = Some sc0 /\
+     parse_loop pc (tok :: rest) (lsV 1 false) st = ROk (LSub n' false false st rest)) /\
+  (pre <> [] -> plain_tok tok -> forall rest st, fs_skip st = 0 ->
+     (forall a, takes_at pc pos a tok ->
+        parse_loop pc (pre ++ tok :: rest) (lsV 1 false) st =
+        (do st' <- F st; do st'' <- pos_push pc a tok st'; parse_loop pc rest (after_pos a pos) st'')) /\
+     (pos_plain pc -> get_pos pc pos = None -> is_set s_allow_external pc = false ->
+        parse_loop pc (pre ++ tok :: rest) (lsV 1 false) st =
+        (do st' <- F st; do st1 <- resolve_pending_ignore pc st'; RErr (match_arg_error pc tok true false) st1) /\
+        e_kind (match_arg_error pc tok true false) = EArgumentConflict)).
+Proof.
+  intros Hl Hrel Hneg Hp Hu Hf Hnh.
+  pose proof (lvlw_el pc cur Hl Hrel) as L.
+  assert (Hin : In sc0 (c_subs pc) /\ aliases_to sc0 tok = true) by (apply find_some in Hf; exact Hf).
+  destruct Hin as [Hin Hal].
+  split; [|split].
+  - destruct (level_descent pc cur tok sc0 Hrel (w_app pc Hl) Hf (not_help_name sc0 Hnh)) as [es [pc' [Hfe [Hb Hrel']]]].
+    exists es, pc'. split; [|split; assumption].
+    rewrite shadow_run_app, (eng_pitems pc cur L 1 pre F pos Hp). cbn [shadow_run].
+    rewrite (eng_descend_vd tok cur es pos Hu Hfe). reflexivity.
+  - intros _ rest st.
+    destruct (accept_sub_step pc sc0 tok rest 1 false st (w_app pc Hl) Hin Hal Hu (andb_false_r _))
+      as [n' [Ha' [Hf' [_ Hloop]]]].
+    exists n'. split; [exact Hf'|]. unfold lsV. rewrite Hloop.
+    assert (Hn' : beq n' s_help = false).
+    { apply beq_neq. intros ->. rewrite Ha' in Hnh. discriminate. }
+    rewrite Hn'. reflexivity.
+  - intros Hne Hpl rest st Hfs.
+    assert (Hvaf : negb (is_nil pre) = true) by (destruct pre; [contradiction|reflexivity]).
+    assert (Hloop : parse_loop pc (pre ++ tok :: rest) (lsV 1 false) st =
+                    (do st' <- F st; parse_loop pc (tok :: rest) (lsV pos true) st')).
+    { rewrite (loop_pitems pc 1 pre F pos Hp (tok :: rest) false st Hfs). cbn [orb]. rewrite Hvaf. reflexivity. }
+    assert (Hns : (if is_set s_sub_precedence pc || true then possible_subcommand pc tok true else None) = None).
+    { rewrite orb_true_r. exact (negate_no_sub pc tok Hneg). }
+    split.
+    + intros a Ht. rewrite Hloop. destruct (F st) as [st'|e1 s1|x]; cbn [rbind]; try reflexivity.
+      unfold lsV. exact (loop_pos_step pc PSValuesDone tok a rest pos true st' I Hns Hpl Ht).
+    + intros Hpp Hg Hext. split.
+      * rewrite Hloop. destruct (F st) as [st'|e1 s1|x]; cbn [rbind]; try reflexivity.
+        unfold lsV. exact (loop_pos_none pc PSValuesDone tok rest pos true st' I Hns Hpl Hpp Hg Hext).
+      * apply conflict_kind; [|exact Hneg]. unfold has_subcommands. destruct (c_subs pc); [destruct Hin|reflexivity].
+Qed.
+
+(** ** the witnesses (replayed on the real crate: corpus/C18/accept.args-conflict.cases) *)
+Module Conflict.
+Definition w_sub : bytes := [115; 117; 98].
+Definition w_opt : bytes := [111; 112; 116].
+Definition w_file : bytes := [102; 105; 108; 101].
+Definition sub : cmd :=
+  (cmd_new w_sub) <| c_args := [ (arg_new w_opt) <| a_long := Some w_opt |> <| a_action := Some ASetTrue |> ] |>.
+(** p(-f; args_conflicts_with_subcommands) -> sub(--opt) *)
+Definition c1 : cmd :=
+  (cmd_new [112]) <| c_set := settings_none <| s_args_negate_subs := true |> |>
+    <| c_args := [ ex_flag 102 102 ] |> <| c_subs := [ sub ] |>.
+(** the same with a positional <file> *)
+Definition c2 : cmd :=
+  c1 <| c_args := [ ex_flag 102 102; (arg_new w_file) <| a_action := Some ASet |> ] |>.
+Definition f : bytes := [45; 102].
+Definition has_cand (v : bytes) (i : cid) (r : cres) : bool :=
+  match r with COk l => existsb (fun cd => beq (cd_value cd) v && opt_cid_eqb (cd_id cd) (Some i)) l | _ => false end.
+Definition level_at (c : cmd) (args : list bytes) (i : N) : option bytes :=
+  match build_full (build_fuel c) c with
+  | BOk b => match start_walk b args i with WAt _ cur _ ValueDone false => Some (c_name cur) | _ => None end
+  | _ => None end.
+Definition kind_of (o : outcome) : option ekind := match o with OErr e => Some (e_kind e) | _ => None end.
+Definition accepted (o : outcome) : bool := match o with OOk _ => true | _ => false end.
+End Conflict.
+
+(** W1 (no positional): `p -f <TAB>` offers the SUBCOMMAND candidate `sub` (the engine does not know that the parser
+    no longer looks for subcommands); the parser rejects `p -f sub`: ArgumentConflict - not an unknown-token kind,
+    the acceptance clause as read by [unknown_kind] is not violated; `p -f sub <TAB>`: the engine is at `sub`.
+    W2 (a positional <file>): `p -f sub` is ACCEPTED by the parser - `sub` is the value of <file>, the level is
+    still `p` -; the engine stands at the level of `sub` and offers its option `--opt` (id arg::opt); the completed
+    line `p -f sub --opt` is rejected: UnknownArgument.  The hypothesis of [pl_down] cannot be dropped. *)
+Theorem args_conflict_refuted :
+  (* W1 *)
+  Conflict.has_cand Conflict.w_sub (IdCmd Conflict.w_sub) (complete_model [] Conflict.c1 [[112]; Conflict.f; []] 2) = true /\
+  Conflict.kind_of (parse_top Conflict.c1 [[112]; Conflict.f; Conflict.w_sub]) = Some EArgumentConflict /\
+  Conflict.level_at Conflict.c1 [[112]; Conflict.f; Conflict.w_sub; []] 3 = Some Conflict.w_sub /\
+  (* W2 *)
+  Conflict.accepted (parse_top Conflict.c2 [[112]; Conflict.f; Conflict.w_sub]) = true /\
+  Conflict.level_at Conflict.c2 [[112]; Conflict.f; Conflict.w_sub; [45; 45]] 3 = Some Conflict.w_sub /\
+  Conflict.has_cand (45 :: 45 :: Conflict.w_opt) (IdArg Conflict.w_opt)
+    (complete_model [] Conflict.c2 [[112]; Conflict.f; Conflict.w_sub; [45; 45]] 3) = true /\
+  Conflict.kind_of (parse_top Conflict.c2 [[112]; Conflict.f; Conflict.w_sub; 45 :: 45 :: Conflict.w_opt]) = Some EUnknownArgument.
+Proof. vm_compute. repeat split; reflexivity. Qed.
+
+(** non-vacuity of [args_conflict_levels]: the hypotheses hold for the two witness commands, line `-f sub` *)
+Example ex_conflict_hyps :
+  let r1 := build_self (with_bin Conflict.c1 [112]) in
+  let r2 := build_self (with_bin Conflict.c2 [112]) in
+  (lvlw r1 /\ is_set s_args_negate_subs r1 = true /\ (exists F, pitems r1 1 [Conflict.f] F 1) /\
+   utf8_valid Conflict.w_sub = true /\ (exists sc0, find_subcommand r1 Conflict.w_sub = Some sc0 /\ aliases_to sc0 s_help = false) /\
+   plain_tok Conflict.w_sub /\ pos_plain r1 /\ get_pos r1 1 = None /\ is_set s_allow_external r1 = false) /\
+  (lvlw r2 /\ is_set s_args_negate_subs r2 = true /\ (exists F, pitems r2 1 [Conflict.f] F 1) /\
+   plain_tok Conflict.w_sub /\ exists a, takes_at r2 1 a Conflict.w_sub).
+Proof.
+  cbv zeta. split.
+  - split; [apply lvlw_b_ok; vmr|]. split; [vmr|]. split.
+    { eexists. eapply (pi_opt _ 1 [Conflict.f] _ []); [flag_cluster 102|apply pi_nil]. }
+    split; [vmr|]. split; [eexists; split; vmr|]. split; [solve_plain|]. split; [split; vmr|]. split; vmr.
+  - split; [apply lvlw_b_ok; vmr|]. split; [vmr|]. split.
+    { eexists. eapply (pi_opt _ 1 [Conflict.f] _ []); [flag_cluster 102|apply pi_nil]. }
+    split; [solve_plain|]. eexists. solve_takes.
+Qed.
+
+(** [subcommand_precedence_over_arg] is read from the level the positional belongs to, never from the root:
+    [WideExample.exw] sets it on `remote` only - `p remote f1 f2 ad <TAB>` is completed at the level of `add`
+    ([WideExample.ex_pline_walk]); with the setting moved to the ROOT the word `ad` is one more value of <files> and
+    the engine stays at `remote` in state [Pos] - as the parser does (`p remote f1 f2 ad --force` is rejected:
+    `--force` is unknown at `remote`) *)
+Definition exw_root_prec : cmd :=
+  match WideExample.exw with
+  | mkCmd n al sf lf sfa lfa ar gr su cs gs v lv ev bn dn ab lab =>
+      mkCmd n al sf lf sfa lfa ar gr
+        (map (fun s => s <| c_set := (c_set s) <| s_sub_precedence := false |> |>) su)
+        (cs <| s_sub_precedence := true |>) gs v lv ev bn dn ab lab
+  end.
+Example ex_precedence_of_level :
+  let line := [WideExample.w_remote; [102; 49]; [102; 50]; [97; 100]] in
+  (match build_full (build_fuel exw_root_prec) exw_root_prec with
+   | BOk b => match start_walk b ([112] :: line ++ [[]]) 5 with
+              | WAt _ cur 1 (Pos 1 3) false => beq (c_name cur) WideExample.w_remote
+              | _ => false end
+   | _ => false end) = true /\
+  (match build_full (build_fuel WideExample.exw) WideExample.exw with
+   | BOk b => match start_walk b ([112] :: line ++ [[]]) 5 with
+              | WAt _ cur 1 ValueDone false => beq (c_name cur) WideExample.w_add
+              | _ => false end
+   | _ => false end) = true /\
+  Conflict.kind_of (parse_top exw_root_prec ([112] :: line ++ [WideExample.ddw WideExample.w_force])) = Some EUnknownArgument /\
+  Conflict.accepted (parse_top WideExample.exw ([112] :: line ++ [WideExample.ddw WideExample.w_force])) = true.
+Proof. vm_compute. repeat split; reflexivity. Qed.
